@@ -408,9 +408,11 @@ def _setup_v1_load_config_for_cls(
 
         # Check for a "Catch All" field
         if field_type is CatchAll:
+            # a `default_factory` is a default too: the field is then passed
+            # by keyword (only when there are unknown keys), not positionally
             load_dataclass_field_to_alias[CATCH_ALL] \
                 = dump_dataclass_field_to_alias[CATCH_ALL] \
-                = f'{f.name}{"" if f.default is MISSING else "?"}'
+                = f'{f.name}{"" if f.default is MISSING and f.default_factory is MISSING else "?"}'
 
         # Check if the field annotation is an `Annotated` type. If so,
         # look for any `JSON` objects in the arguments; for each object,
